@@ -200,6 +200,11 @@ func multiCase(env *core.Env, idx int, concurrent bool) *core.CaseResult {
 		so.light = lightProjection(snap, s, []*sim.Scenario{s})
 		for _, v := range vs {
 			so.fps[v.Fingerprint] = true
+			if v.Prop == "C19" {
+				// the cache-alias monitor (objects handed out by no-deep-copy lists must not be mutated: in production they
+				// are the informer cache every other worker reads) belongs to this property whoever runs the scenario
+				res.Violate(v.Fingerprint, v.Msg, gen.NF{"scenario": s, "detail": v.Detail})
+			}
 		}
 		solos[i] = so
 	}
